@@ -78,7 +78,10 @@ If neither -c nor -m are given, gotree annotate will wait for a reference tree o
 					io.LogError(t.Err)
 					return t.Err
 				}
-				t.Tree.Annotate(annotateNames, annotateComment)
+				if err = t.Tree.Annotate(annotateNames, annotateComment); err != nil {
+					io.LogError(err)
+					return
+				}
 				f.WriteString(t.Tree.Newick() + "\n")
 			}
 		} else {
